@@ -1,5 +1,6 @@
 import Model.C04.Domain
 import Model.C04.Verdict
+import Model.C04.Verdict2
 import Model.C04.Switch
 /-!
 # C04 — the libsecp256k1 and pure-Python backends are observationally identical (DESIGN.md §3 C04)
@@ -36,6 +37,18 @@ theorem guard_implies_domain (s : SiteId) (x : Atoms) : siteOK s x = true := by
 theorem unhandled_sites_strict (s : SiteId) (x : Atoms) (h : s.catches = false) : siteStrict s x = true := by
   revert h
   cases s <;> simp only [siteStrict, pre, served, scalar1, scalar2, point1, point2] <;> unfold_sites <;> grind
+
+/-- coverage, sharper than `unhandled_sites_strict`: outside the twelve listed sites the domain follows from the guard
+and the established facts alone, handler or not -/
+theorem domain_from_guard_alone (s : SiteId) (x : Atoms) (h : s ∉ handlerNeeded) : siteStrict s x = true := by
+  cases s <;> first
+    | exact absurd (by decide) h
+    | (simp only [siteStrict, pre, served, scalar1, scalar2, point1, point2]; unfold_sites; grind)
+
+/-- and at each of the twelve the handler is really what carries it: the call stands inside one, and an input outside
+the domain passes the guard -/
+theorem handler_sites_need_their_handler :
+    ∀ s ∈ handlerNeeded, s.catches = true ∧ outsideDomain.any (fun x => !siteStrict s x) = true := by decide
 
 /-- with the switch off no dispatch site delegates; the three exceptions are the INSIDE of a delegation already made
 (an object built, or a helper entered, while the bindings served) -/
@@ -124,6 +137,54 @@ theorem recover_agrees (kid : KeyId) (m : MsgLen) (s : DsaSig) : Recover.py kid 
 
 theorem ssa_assert_agrees (k : XKey) (s : SsaSig) : SsaAssert.py k s = SsaAssert.bind k s := by
   cases k <;> cases s <;> rfl
+
+/-! ### second batch (Model/C04/Verdict2.lean) -/
+
+theorem tap_outroot_agrees (k : XKey) : TapOutRoot.py k = TapOutRoot.bind k := by cases k <;> rfl
+theorem tap_outpub_agrees (k : Sec) : TapOutPub.py k = TapOutPub.bind k := by cases k <;> rfl
+theorem tap_prv_agrees (q : Scalar) : TapPrv.py q = TapPrv.bind q := by cases q <;> rfl
+theorem tap_check_agrees (q : QKey) (c : Control) : TapCheck.py q c = TapCheck.bind q c := by
+  cases q <;> cases c <;> rfl
+/-- the commitment check accepts exactly a 32-byte key under a control block that proves it -/
+theorem tap_check_true_iff (q : QKey) (c : Control) : TapCheck.bind q c = .true_ ↔ (q = .len32 ∧ c = .valid) := by
+  cases q <;> cases c <;> decide
+
+theorem bip32_step_agrees (ch : Chain) (i : ChildIndex) (il : IL) : Bip32.py ch i il = Bip32.bind ch i il := by
+  cases ch <;> cases i <;> cases il <;> rfl
+/-- a child is answered only for IL < n that does not cancel the parent, and never hardened from a public key -/
+theorem bip32_step_value_iff (ch : Chain) (i : ChildIndex) (il : IL) :
+    Bip32.bind ch i il = .value ↔ (il = .ok ∧ ¬ (ch = .pub ∧ i = .hardened)) := by
+  cases ch <;> cases i <;> cases il <;> decide
+
+theorem musig_partial_verify_agrees (m : MsgLen) (s : PSig) (r : PubNonce) (k : SignerKey) :
+    Musig.py s r k = Musig.bind m s r k := by
+  cases m <;> cases s <;> cases r <;> cases k <;> rfl
+theorem musig_partial_verify_true_iff (m : MsgLen) (s : PSig) (r : PubNonce) (k : SignerKey) :
+    Musig.bind m s r k = .true_ ↔ (s = .valid ∧ r = .valid ∧ k = .member) := by
+  cases m <;> cases s <;> cases r <;> cases k <;> decide
+
+theorem ellswift_agrees (q : Scalar) (a b : EllLen) (p : Party) (k : Sec) :
+    Ell.createPy q = Ell.createBind q ∧ Ell.decodePy a = Ell.decodeBind a ∧ Ell.xdhPy a b p q = Ell.xdhBind a b p q
+      ∧ Ell.encodePy k = Ell.encodeBind k := by
+  refine ⟨?_, ?_, ?_, ?_⟩
+  · cases q <;> rfl
+  · cases a <;> rfl
+  · cases a <;> cases b <;> cases p <;> cases q <;> rfl
+  · cases k <;> rfl
+
+theorem commit_nonce_agrees (k : Scalar) (c : Bool) : Commit.py k c = Commit.bind k c := by
+  cases k <;> cases c <;> rfl
+
+theorem sp_output_keys_agrees (k : KeySum) (a : Addresses) : SpOut.py k a = SpOut.bind k a := by
+  cases k <;> cases a <;> rfl
+
+theorem engine_ssa_agrees (k : XKey) (s : SsaSig) : EngineSsa.py k s = EngineSsa.bind k s := by
+  cases k <;> cases s <;> rfl
+
+theorem tx_verdict_agrees (v : TxVector) : TxVerdict.py v = TxVerdict.bind v := by cases v <;> rfl
+
+example : TapCheck.bind .len32 .parityFlipped = .false_ ∧ Bip32.py .prv .hardened .cancels = .errValue := by decide
+example : Musig.bind .len32 .valid .valid .foreign = .errValue ∧ Commit.bind .inRange true = .errRuntime := by decide
 
 /-- silent-payment scanning: the negation of agreement, with its witness class (finding
 `sp.scan.offcurve_backend_divergence`), and agreement everywhere else — the empty list included (fix 9a0d5101) -/
